@@ -274,46 +274,50 @@ def matchAt (cfg : Cfg) (p s : List Nat) (fl : Flags) (pi si : Nat) : Res :=
       match rd s si with
       | none => .oob
       | some d => .ofBool (d = 0)
-    else
-      -- Leading '^' anchors the start of the pattern.
-      let pi1 := if c0 = C_CARET then pi + 1 else pi
-      let fl1 : Flags := if c0 = C_CARET then { fl with noStart := false } else fl
-      match hp1 : rd p pi1 with
-      | none => .oob
-      | some c =>
-        match rd s si with
-        | none => .oob
-        | some d =>
-          if c = C_SLASH ∧ d ≠ C_SLASH then .no
-          -- Certain patterns anchor implicitly.
-          else if c = C_STAR ∨ c = C_SLASH then
-            match hp2 : skipSlashes p pi1, skipSlashes s si with
-            | some pi2, some si2 => pm cfg p s fl1 pi2 si2
-            | _, _ => .oob
-          -- If start is unanchored, try to match start of each path element.
-          else if fl1.noStart then unanch cfg p s fl1 pi1 si
-          -- Default: Match from beginning.
-          else pm cfg p s fl1 pi1 si
+    -- Leading '^' anchors the start of the pattern: `++p; flags &= ~PATHMATCH_NO_ANCHOR_START;`
+    else if c0 = C_CARET then matchBody cfg p s { fl with noStart := false } (pi + 1) si
+    else matchBody cfg p s fl pi si
+termination_by (p.length + 1 - pi, 3, 1)
+decreasing_by
+  · apply lex3; omega
+  · apply lex3; omega
+
+/-- `__archive_pathmatch` after the `^` test. -/
+def matchBody (cfg : Cfg) (p s : List Nat) (fl : Flags) (pi si : Nat) : Res :=
+  match hp1 : rd p pi with
+  | none => .oob
+  | some c =>
+    match rd s si with
+    | none => .oob
+    | some d =>
+      if c = C_SLASH ∧ d ≠ C_SLASH then .no
+      -- Certain patterns anchor implicitly.
+      else if c = C_STAR ∨ c = C_SLASH then
+        match hp2 : skipSlashes p pi, skipSlashes s si with
+        | some pi2, some si2 => pm cfg p s fl pi2 si2
+        | _, _ => .oob
+      -- If start is unanchored, try to match start of each path element.
+      else if fl.noStart then unanch cfg p s fl pi si
+      -- Default: Match from beginning.
+      else pm cfg p s fl pi si
 termination_by (p.length + 1 - pi, 3, 0)
 decreasing_by
-  · have h1 := rd_le hp
-    have h2 := skipSlashes_ge hp2
-    have h3 : pi ≤ pi1 := by simp only [pi1]; split <;> omega
+  · have h2 := skipSlashes_ge hp2
     apply lex3; omega
-  · apply lex3; split <;> omega
-  · apply lex3; split <;> omega
+  · apply lex3; omega
+  · apply lex3; omega
 
 /-- `for ( ; s != NULL; s = strchr(s, '/')) { if (*s == '/') s++; if (pm(p, s, flags)) return (1); } return (0);` -/
 def unanch (cfg : Cfg) (p s : List Nat) (fl : Flags) (pi si : Nat) : Res :=
   match hs : rd s si with
   | none => .oob
   | some d =>
-    let si1 := if d = C_SLASH then si + 1 else si
-    match pm cfg p s fl pi si1 with
+    -- `if (*s == '/') s++;` (written out twice instead of a `let`, which keeps the proofs simple)
+    match pm cfg p s fl pi (if d = C_SLASH then si + 1 else si) with
     | .yes => .yes
     | .oob => .oob
     | .no =>
-      match hc : strchrSlash s si1 with
+      match hc : strchrSlash s (if d = C_SLASH then si + 1 else si) with
       | none => .oob
       | some none => .no
       | some (some sj) => unanch cfg p s fl pi sj
@@ -325,13 +329,11 @@ decreasing_by
     have h3 := strchrSlash_at hc
     have : si < sj := by
       by_cases hd : d = C_SLASH
-      · have : si1 = si + 1 := by simp only [si1]; split <;> omega
-        omega
-      · have : si1 = si := by simp only [si1]; split <;> omega
+      · simp only [hd, if_true, dite_true] at h2; omega
+      · simp only [hd, if_false, dite_false] at h2
         rcases Nat.lt_or_eq_of_le h2 with h | h
         · omega
-        · have : sj = si := by omega
-          subst this; rw [hs] at h3; cases h3; exact absurd rfl hd
+        · subst h; rw [hs] at h3; cases h3; exact absurd rfl hd
     have := rd_le h3
     apply lex3; omega
 
